@@ -1,4 +1,5 @@
 import PqV.Lemmas.Assemble
+import PqV.Gen.SchemaLevels
 /-!
 # C15 — LIST and MAP columns are assembled into the right per-row lists and dicts
 
@@ -72,5 +73,48 @@ theorem continuation_without_value_fails :
 theorem page_only_continuation_ok :
     rowsOf (readChunk 2 true 2 [([(2, 0)], [Cell.int 1]), ([(2, 1)], [Cell.int 2]), ([(2, 0)], [Cell.int 3])])
       = some [Row.list [Cell.int 1, Cell.int 2], Row.list [Cell.int 3]] := by decide
+
+
+section schemaLevels
+open PqV.Gen.SchemaLevels
+
+/-- the three repetition-type tests of `SchemaHelper` as the source has them now (REGENERATED):
+    every non-REQUIRED element makes a path not required and adds a definition level, exactly the
+    REPEATED elements add a repetition level -/
+theorem level_tests_now : ∀ rt, rt < 3 →
+    reqTest rt = decide (rt ≠ 0) ∧ defTest rt = decide (rt ≠ 0) ∧ repTest rt = decide (rt = 2) := by decide
+
+/-- **definition levels are skipped exactly when there are none**: `is_required(path)` (which makes
+    `read_def` skip the level block of a v1 page) holds iff the path's maximum definition level is 0 —
+    for every path, in particular for REQUIRED lists of REQUIRED elements, whose REPEATED ancestor
+    carries a definition level. -/
+theorem required_iff_no_definition_levels (path : List Nat) : isRequired path = decide (maxDef path = 0) := by
+  induction path with
+  | nil => rfl
+  | cons rt rest ih =>
+    simp only [isRequired, maxDef, List.all_cons, List.filter_cons] at ih ⊢
+    by_cases h : rt = 0
+    · subst h
+      simp [reqTest, defTest] at ih ⊢
+      exact ih
+    · have h1 : reqTest rt = true := by simp [reqTest, h]
+      have h2 : defTest rt = true := by simp [defTest, h]
+      simp [h1, h2]
+
+/-- repetition levels never exceed definition levels (every REPEATED element is non-REQUIRED) -/
+theorem maxRep_le_maxDef (path : List Nat) : maxRep path ≤ maxDef path := by
+  induction path with
+  | nil => simp [maxRep, maxDef]
+  | cons rt rest ih =>
+    simp only [maxRep, maxDef, List.filter_cons] at ih ⊢
+    by_cases h : rt = 2
+    · subst h; simp [repTest, defTest]; omega
+    · have : repTest rt = false := by simp [repTest, h]
+      simp only [this, Bool.false_eq_true, if_false]
+      split <;> simp <;> omega
+
+example : isRequired [0, 2, 0] = false ∧ maxDef [0, 2, 0] = 1 ∧ maxRep [0, 2, 0] = 1 := by decide
+
+end schemaLevels
 
 end PqV.Props.C15
